@@ -97,6 +97,7 @@ type Engine struct {
 	ev *eventCtx // event mode (L2), nil in sequential mode
 
 	// across paths
+	x             *explorer
 	work          [][]bool
 	paths         []pathRecord
 	asserts       map[string]*AssertRec
@@ -208,7 +209,7 @@ func (e *Engine) branch(c *Term) bool {
 	case rt != ResUnsat && rf != ResUnsat:
 		// real fork: take true now, queue false
 		alt := append(append([]bool{}, e.decisions...), false)
-		e.work = append(e.work, alt)
+		e.x.push(alt)
 		e.decisions = append(e.decisions, true)
 		e.forced = append(e.forced, false)
 		e.pc = append(e.pc, c)
@@ -412,19 +413,6 @@ func (e *Engine) doAssert(label string, c *Term) {
 		panic(pathEnd{kind: "stop", msg: "assertion " + label + " fails on the whole path"})
 	}
 	e.assume(c)
-}
-
-// explore runs all paths of one harness function.
-func (e *Engine) explore(fn *ssa.Function) {
-	e.work = [][]bool{nil}
-	for len(e.work) > 0 {
-		if e.maxPaths > 0 && len(e.paths) >= e.maxPaths {
-			panic(engineErr("path bound %d exceeded in harness %s", e.maxPaths, e.harness))
-		}
-		p := e.work[len(e.work)-1]
-		e.work = e.work[:len(e.work)-1]
-		e.runPath(fn, p)
-	}
 }
 
 func (e *Engine) runPath(fn *ssa.Function, prefix []bool) {
